@@ -403,6 +403,11 @@ def _factories(rng):
         F["hash:" + name] = (lambda H=H: H.new(), lambda o, d: (o.update(d), b"")[1], lambda o: o.digest(), hasattr(H.new(), "copy"))
     k16, k32, n8, n12, iv16 = (rng.randbytes(x) for x in (16, 32, 8, 12, 16))
     F["xof:SHAKE128"] = (lambda: SHAKE128.new(), lambda o, d: (o.update(d), b"")[1], lambda o: o.read(50) + o.read(7), False)
+    # XOFs in the squeezing phase: the "data" only gives the read lengths; a copy taken between reads must continue the stream
+    from Crypto.Hash import SHAKE256
+    xseed = rng.randbytes(rng.choice([0, 1, 167, 168, 169, 500]))
+    F["xofread:SHAKE128"] = (lambda: SHAKE128.new(data=xseed), lambda o, d: o.read(len(d)), lambda o: o.read(171), True)
+    F["xofread:SHAKE256"] = (lambda: SHAKE256.new(data=xseed), lambda o, d: o.read(len(d)), lambda o: o.read(140), True)
     F["xof:K12"] = (lambda: KangarooTwelve.new(custom=b"c"), lambda o, d: (o.update(d), b"")[1], lambda o: o.read(40), False)
     F["mac:CMAC"] = (lambda: CMAC.new(k16, ciphermod=AES), lambda o, d: (o.update(d), b"")[1], lambda o: o.digest(), True)
     F["mac:HMAC"] = (lambda: HMAC.new(k16, digestmod=SHA256), lambda o, d: (o.update(d), b"")[1], lambda o: o.digest(), True)
